@@ -44,7 +44,8 @@ ExplainsCodes(cfg, c, r) ==
          [] OTHER -> FALSE
 
 Explains(cfg, e, mp) ==
-    CASE cfg.kind = "index" -> ExplainsIndex(cfg, e.c, e.r, mp)
+    /\ Legal(Cardinality(Members(cfg.alpha)), cfg.q)            \* (precondition; the drivers generate nothing else)
+    /\ CASE cfg.kind = "index" -> ExplainsIndex(cfg, e.c, e.r, mp)
       [] cfg.kind = "codes" -> ExplainsCodes(cfg, e.c, e.r)
       [] OTHER -> FALSE
 
